@@ -66,3 +66,18 @@ reg("C07", "explore", "model_checking",
     "all ping lengths 0..125 at three positions, all legal sequences up to a depth delivered incrementally and as single bursts, 5 API variants.",
     "Trusted: reference decoder; the transport accepts writes whole (short writes are C12).",
     "DESIGN.md section 6 C07")
+
+reg("C08", "explore", "model_checking",
+    "explicit-state search over all histories of 18 client/server events on the real object, compared step by step with a reference connection state machine (virtual clock)",
+    "All histories up to depth 4 (quick) / 6 (thorough) of send/recv/ping/close/send_close/shutdown calls and server text/ping/close/EOF/reset events, with quiet and "
+    "chatty servers and socket timeouts 5/20/None: at most one close frame on the client's own initiative with the right body, out-of-range statuses refused "
+    "before any write, transport released after close()/loss with no further transport calls, close() bounded in virtual time.",
+    "Trusted: the reference machine OPEN/CLOSING/RELEASED in mc/props/c08.py; the ClockSock transport model (waiting costs the socket timeout).",
+    "DESIGN.md section 6 C08")
+reg("C17", "explore", "fault_enumeration",
+    "grammar-exhaustive enumeration of hostile byte streams x stream endings (EOF, silence, reset) with exception-class, progress and read-size oracles",
+    "All handshake token sequences up to a depth, every single-byte corruption and truncation of valid handshake/frame streams, all 65536 two-byte frame headers, "
+    "extreme declared lengths, sequences from a grammar of valid frames: only WebSocketException subclasses or the transport's own error may escape, "
+    "no call may consult the transport repeatedly without progress, and the largest read request must not depend on a declared length.",
+    "Trusted: reference decoder for the 'consistent result' clause; default configuration.",
+    "DESIGN.md section 6 C17")
